@@ -20,7 +20,8 @@ class VariableOpcode(Param1Opcode):
                 fn: FunctionDef, index: int):
         op1 = self.param1
         gv = GlobalVariable(context.name_list[op1], index)
-        if not gv in fn.global_vars:
+        if (not gv in fn.global_vars
+            and not gv.name in context.global_vars):
             stack.append(LocalVariable(context.name_list[op1], index))
         else:
             stack.append(gv)
